@@ -151,6 +151,23 @@ Theorem C05_model_meets_layout : forall t len v, in_domain t v len = true ->
     layout_ok t len v (TL [TB lb]) (enc_value t v len) (tree_of_outcome tree_of_value (dec_value t lb)) = true.
 Proof. exact model_meets_layout. Qed.
 
+(* (13b) "the bytes the library produces for a value": for every call on the value, and the caller's value stays the value.
+   Every run calls DataType.Bytes twice on the SAME Go value object and renders the object before and after; the model
+   (a function of an immutable value) answers the constant observation (1 1) = (second outcome equals the first, object
+   unchanged), compared exactly with the implementation, and the specification of fn 1 demands it on every case. *)
+Theorem C05_model_pure : forall i v, value_of_tree (t_nth 2 i) = Some v -> pure_ok (t_nth 2 (run 1 i)) = true.
+Proof. exact layout_model_pure. Qed.
+(* non-vacuity: for -123.45 as NUMN the model's output meets the specification; an implementation whose first encoding is
+   the prescribed 01 30 39 but whose second call on the same object sends sign byte 00 (the object having lost its sign)
+   does not, nor does one that only changes the caller's object *)
+Example C05_ex_second_call :
+  let i := TL [TI t_NUMN; TI 0; tree_of_value (VDec 5 2 (Some (-12345))); TL [TB [1; 48; 57]]] in
+  let pos := tree_of_value (VDec 5 2 (Some 12345)) in
+  spec 1 i (run 1 i) = true /\
+  spec 1 i (TL [t_nth 0 (run 1 i); t_nth 1 (run 1 i); TL [TI 0; TI 0; TL [TI 0; TB [0; 48; 57]]; pos; pos]]) = false /\
+  spec 1 i (TL [t_nth 0 (run 1 i); t_nth 1 (run 1 i); TL [TI 1; TI 0; TL [TI 0; TB [1; 48; 57]]; pos; pos]]) = false.
+Proof. repeat split; vm_compute; reflexivity. Qed.
+
 (* (14) documented vectors *)
 Example C05_vec_1753 : layout_enc t_DATETIME (VTime (CT 1753 1 1 0 0 0 0)) 8 = Some (le_word 4 (-53690) ++ le_word 4 0)
   /\ enc_value t_DATETIME (VTime (CT 1753 1 1 0 0 0 0)) 8 = Ok [70; 46; 255; 255; 0; 0; 0; 0].
@@ -199,3 +216,4 @@ Print Assumptions C05_time_to_microseconds.
 Print Assumptions C05_microseconds_to_time.
 Print Assumptions C05_fliegel_all_years.
 Print Assumptions C05_model_meets_layout.
+Print Assumptions C05_model_pure.
